@@ -15,6 +15,8 @@ import (
 	registryState "github.com/oasisprotocol/oasis-core/go/consensus/cometbft/apps/registry/state"
 	schedulerState "github.com/oasisprotocol/oasis-core/go/consensus/cometbft/apps/scheduler/state"
 	stakingState "github.com/oasisprotocol/oasis-core/go/consensus/cometbft/apps/staking/state"
+	registry "github.com/oasisprotocol/oasis-core/go/registry/api"
+	scheduler "github.com/oasisprotocol/oasis-core/go/scheduler/api"
 	staking "github.com/oasisprotocol/oasis-core/go/staking/api"
 
 	"verif/harness/internal/chain"
@@ -149,8 +151,178 @@ func electionInvariants(n *chain.Node) string {
 	}
 	sort.Strings(a)
 	sort.Strings(b)
+	if wv := committeeInvariants(n); wv != "" {
+		return wv
+	}
 	if strings.Join(a, ",") != strings.Join(b, ",") {
 		return fmt.Sprintf("validator updates turned the consensus engine's set into {%s} but the elected set is {%s}", strings.Join(b, ","), strings.Join(a, ","))
+	}
+	return ""
+}
+
+// committeeInvariants: every runtime's executor committee is exactly sized, valid for the
+// current epoch and consists of eligible nodes only; a runtime without a committee could not
+// have had one.
+func committeeInvariants(n *chain.Node) string {
+	t := n.Tree()
+	defer t.Close()
+	rs := registryState.NewImmutableState(t)
+	ss := stakingState.NewImmutableState(t)
+	sch := schedulerState.NewImmutableState(t)
+	epoch, _, err := beaconState.NewImmutableState(t).GetEpoch(chain.Ctx)
+	if err != nil {
+		return "cannot read epoch: " + err.Error()
+	}
+	params, err := sch.ConsensusParameters(chain.Ctx)
+	if err != nil {
+		return "cannot read scheduler parameters: " + err.Error()
+	}
+	thresholds, _ := ss.Thresholds(chain.Ctx)
+	runtimes, _ := rs.Runtimes(chain.Ctx)
+	nodes, _ := rs.Nodes(chain.Ctx)
+	for _, rt := range runtimes {
+		if rt.Kind != registry.KindCompute {
+			continue
+		}
+		ad := rt.ActiveDeployment(epoch)
+		eligible := map[signature.PublicKey]string{} // node -> reason it is NOT eligible ("" = eligible)
+		var pool []*node.Node
+		for _, nd := range nodes {
+			why := ""
+			status, err := rs.NodeStatus(chain.Ctx, nd.ID)
+			switch {
+			case nd.IsExpired(epoch):
+				why = "expired"
+			case err == nil && status.IsFrozen():
+				why = "frozen"
+			case !nd.HasRoles(node.RoleComputeWorker):
+				why = "without the compute worker role"
+			case ad == nil:
+				why = "serving a runtime without active deployment"
+			default:
+				found := false
+				for _, nrt := range nd.Runtimes {
+					if nrt.ID.Equal(&rt.ID) && nrt.Version.ToU64() == ad.Version.ToU64() {
+						found = true
+					}
+				}
+				if !found {
+					why = "not registered for the runtime's active version"
+				} else if err == nil && status.IsSuspended(rt.ID, epoch) {
+					why = "suspended for the runtime"
+				}
+			}
+			if why == "" && !params.DebugBypassStake {
+				acct, err := ss.Account(chain.Ctx, staking.NewAddress(nd.EntityID))
+				if err != nil || acct.Escrow.CheckStakeClaims(thresholds) != nil {
+					why = "owned by an entity whose escrow does not cover its stake claims"
+				}
+			}
+			eligible[nd.ID] = why
+			if why == "" {
+				pool = append(pool, nd)
+			}
+		}
+		sizes := map[scheduler.Role]int{scheduler.RoleWorker: int(rt.Executor.GroupSize), scheduler.RoleBackupWorker: int(rt.Executor.GroupBackupSize)}
+		cs := rt.Constraints[scheduler.KindComputeExecutor]
+		// per role: the number of pool nodes that survive the per-entity limit, and the minimum pool size
+		possible := true
+		why := ""
+		for role, want := range sizes {
+			if want == 0 {
+				continue
+			}
+			avail := len(pool)
+			if mn := cs[role].MaxNodes; mn != nil && mn.Limit > 0 {
+				per := map[signature.PublicKey]int{}
+				avail = 0
+				for _, nd := range pool {
+					if per[nd.EntityID] < int(mn.Limit) {
+						per[nd.EntityID]++
+						avail++
+					}
+				}
+			}
+			minPool := 0
+			if cs[role].MinPoolSize != nil {
+				minPool = int(cs[role].MinPoolSize.Limit)
+			}
+			if avail < minPool || avail < want {
+				possible = false
+				why = fmt.Sprintf("%d eligible nodes for role %s, %d wanted, minimum pool %d", avail, role, want, minPool)
+			}
+		}
+		c, err := sch.Committee(chain.Ctx, scheduler.KindComputeExecutor, rt.ID)
+		if err != nil {
+			return fmt.Sprintf("cannot read the committee of runtime %s: %v", rt.ID, err)
+		}
+		if c == nil {
+			if possible && sizes[scheduler.RoleWorker] > 0 {
+				return fmt.Sprintf("runtime %s has no executor committee at epoch %d although %d eligible nodes satisfy sizes %v and constraints", rt.ID, epoch, len(pool), sizes)
+			}
+			continue
+		}
+		if !possible {
+			return fmt.Sprintf("runtime %s has an executor committee at epoch %d although no valid committee exists (%s)", rt.ID, epoch, why)
+		}
+		if c.ValidFor != epoch {
+			return fmt.Sprintf("runtime %s: committee is valid for epoch %d at epoch %d", rt.ID, c.ValidFor, epoch)
+		}
+		if !c.RuntimeID.Equal(&rt.ID) || c.Kind != scheduler.KindComputeExecutor {
+			return fmt.Sprintf("runtime %s: committee record is for runtime %s kind %s", rt.ID, c.RuntimeID, c.Kind)
+		}
+		got := map[scheduler.Role]int{}
+		seen := map[string]bool{}
+		perEnt := map[scheduler.Role]map[signature.PublicKey]int{scheduler.RoleWorker: {}, scheduler.RoleBackupWorker: {}}
+		byID := map[signature.PublicKey]*node.Node{}
+		for _, nd := range nodes {
+			byID[nd.ID] = nd
+		}
+		backupSeen := false
+		for _, m := range c.Members {
+			got[m.Role]++
+			k := fmt.Sprintf("%s/%s", m.Role, m.PublicKey)
+			if seen[k] {
+				return fmt.Sprintf("runtime %s: node %s appears twice as %s", rt.ID, m.PublicKey, m.Role)
+			}
+			seen[k] = true
+			why, known := eligible[m.PublicKey]
+			if !known {
+				return fmt.Sprintf("runtime %s: committee member %s is not a registered node", rt.ID, m.PublicKey)
+			}
+			if why != "" {
+				return fmt.Sprintf("runtime %s: committee member %s (%s) is %s at epoch %d", rt.ID, m.PublicKey, m.Role, why, epoch)
+			}
+			if m.Role == scheduler.RoleBackupWorker {
+				backupSeen = true
+			} else if backupSeen {
+				return fmt.Sprintf("runtime %s: a worker is listed after a backup worker", rt.ID)
+			}
+			if pe := perEnt[m.Role]; pe != nil {
+				pe[byID[m.PublicKey].EntityID]++
+				if mn := cs[m.Role].MaxNodes; mn != nil && mn.Limit > 0 && pe[byID[m.PublicKey].EntityID] > int(mn.Limit) {
+					return fmt.Sprintf("runtime %s: entity %s has %d committee nodes in role %s, limit %d", rt.ID, byID[m.PublicKey].EntityID, pe[byID[m.PublicKey].EntityID], m.Role, mn.Limit)
+				}
+			}
+		}
+		for role, want := range sizes {
+			if got[role] != want {
+				return fmt.Sprintf("runtime %s: committee has %d members in role %s, the runtime wants exactly %d", rt.ID, got[role], role, want)
+			}
+		}
+	}
+	// no committee for anything that is not a registered runtime (a suspended runtime may keep the
+	// record of the last committee elected while it was active)
+	all, _ := sch.AllCommittees(chain.Ctx)
+	allRts, _ := rs.AllRuntimes(chain.Ctx)
+	for _, c := range all {
+		found := false
+		for _, rt := range allRts {
+			found = found || rt.ID.Equal(&c.RuntimeID)
+		}
+		if !found {
+			return fmt.Sprintf("a committee exists for %s which is not a registered runtime", c.RuntimeID)
+		}
 	}
 	return ""
 }
@@ -178,23 +350,39 @@ func runC14(r *ev.Run) {
 	tiny := chain.GenesisOptions{EpochInterval: 2, MaxValidators: 3, NoRewards: true, NodeExpiration: 12, ZeroThresholds: true, Escrow: []uint64{1000, 7, 40}}
 	tiny2 := chain.GenesisOptions{EpochInterval: 2, MaxValidators: 3, NoRewards: true, NodeExpiration: 12, ZeroThresholds: true, Escrow: []uint64{1000, 15, 16}}
 	variants = append(variants, tiny, tiny2)
+	// a compute runtime served by all nodes: committee sizes, backup workers, per-entity limits,
+	// minimum pool sizes, a second compute node of entity 1, nodes expiring mid-search
+	rt1 := chain.GenesisOptions{EpochInterval: 2, MaxValidators: 3, NoRewards: true, NodeExpiration: 14, Runtime: true, RtGroupSize: 2, RtBackupSize: 1}
+	rt2 := chain.GenesisOptions{EpochInterval: 2, MaxValidators: 3, NoRewards: true, NodeExpiration: 14, Runtime: true, RtGroupSize: 3, RtMinPool: 3, NodeExpirations: []uint64{14, 5, 14}}
+	rt3 := chain.GenesisOptions{EpochInterval: 2, MaxValidators: 3, NoRewards: true, NodeExpiration: 14, Runtime: true, RtGroupSize: 2, RtBackupSize: 2, RtMaxNodesPerEnt: 1, ExtraNodes: true, MaxPerEntity: 2}
+	rt4 := chain.GenesisOptions{EpochInterval: 2, MaxValidators: 2, NoRewards: true, NodeExpiration: 14, Runtime: true, RtGroupSize: 1, RtMinPool: 3, Escrow: []uint64{1500, 650, 3000}} // entity 1 just above its claims (100+200+300)
+	variants = append(variants, rt1, rt2, rt3, rt4)
 	if !r.Thorough() {
-		variants = []chain.GenesisOptions{variants[2], variants[3], variants[5], variants[6], variants[7], tiny, tiny2}
+		variants = []chain.GenesisOptions{variants[2], variants[3], variants[5], variants[6], variants[7], tiny, tiny2, rt1, rt2, rt3, rt4}
 	}
 	depth := 2
 	if r.Thorough() {
 		depth = 3
 	}
 	specs := []rspec{{Name: "P/badger", Path: chain.PathPropose, Backend: "badger"}, {Name: "P1/pathbadger", Path: chain.PathPropose, Backend: "pathbadger", Ident: 1}, {Name: "D/pathbadger+restart", Path: chain.PathReplay, Backend: "pathbadger", Disk: true, Restart: true}}
+	if !r.Thorough() {
+		specs = specs[:2] // the restarted on-disk replica only in the thorough tier (C01 has it in both)
+	}
 	mkAlpha := func(w *world) []letter {
 		k := w.keys
 		E := func(i int) staking.Address { return staking.NewAddress(k.Entities[i].Public()) }
 		mk := func(name string, t txT) letter { t.Name = name; return letter{Name: name, Txs: []txT{t}} }
 		ls := []letter{{Name: "empty-block"}}
+		esc := func(i int) uint64 {
+			if i < len(w.opts.Escrow) {
+				return w.opts.Escrow[i]
+			}
+			return uint64(1000 * (i + 1))
+		}
 		// stake moving across thresholds and across each other
 		ls = append(ls,
-			mk("reclaim(e1<-e1,all-50sh)", txT{Signer: k.Entities[1], Method: staking.MethodReclaimEscrow, Body: staking.ReclaimEscrow{Account: E(1), Shares: qq(w.opts.Escrow[1] - 50)}}),
-			mk("reclaim(e2<-e2,half)", txT{Signer: k.Entities[2], Method: staking.MethodReclaimEscrow, Body: staking.ReclaimEscrow{Account: E(2), Shares: qq(w.opts.Escrow[2] / 2)}}),
+			mk("reclaim(e1<-e1,all-50sh)", txT{Signer: k.Entities[1], Method: staking.MethodReclaimEscrow, Body: staking.ReclaimEscrow{Account: E(1), Shares: qq(esc(1) - 50)}}),
+			mk("reclaim(e2<-e2,half)", txT{Signer: k.Entities[2], Method: staking.MethodReclaimEscrow, Body: staking.ReclaimEscrow{Account: E(2), Shares: qq(esc(2) / 2)}}),
 			mk("reclaim(e0<-e0,900sh)", txT{Signer: k.Entities[0], Method: staking.MethodReclaimEscrow, Body: staking.ReclaimEscrow{Account: E(0), Shares: qq(900)}}),
 			mk("escrow(e0->e0,2000)", txT{Signer: k.Entities[0], Method: staking.MethodAddEscrow, Body: staking.Escrow{Account: E(0), Amount: qq(2000)}}),
 			mk("escrow(a1->e1,1)", txT{Signer: k.Accounts[1], Method: staking.MethodAddEscrow, Body: staking.Escrow{Account: E(1), Amount: qq(10)}}),
@@ -207,6 +395,18 @@ func runC14(r *ev.Run) {
 			}
 		}
 		ls = append(ls, letter{Name: "evidence=dupvote:0", Evidence: "dupvote:0"}, letter{Name: "evidence=dupvote:2", Evidence: "dupvote:2"}, letter{Name: "votes=none", Votes: "none"})
+		if w.opts.Runtime {
+			for _, t := range w.runtimeTxs() {
+				switch t.Name {
+				case "runtime-update(e0,max-in-msgs+1)", "runtime-update(e0,group size 0)", "runtime-new(e1)", "runtime-update(e0,owner->e1)":
+					ls = append(ls, letter{Name: t.Name, Txs: []txT{t}})
+				}
+			}
+			for _, rs := range []roundSpec{{Who: "all"}, {Who: "scheduler"}, {Who: "failure"}, {Who: "all", Msgs: "update-runtime"}} {
+				rs := rs
+				ls = append(ls, letter{Name: rs.String(), Round: &rs})
+			}
+		}
 		return ls
 	}
 	run := func(w *world, alpha []letter, h []int) (key, what string) {
@@ -233,6 +433,14 @@ func runC14(r *ev.Run) {
 				return "replicas disagree on the election: " + wv, false
 			}
 			return "", true
+		}
+		// runtime genesis: warm up until the first executor committee exists
+		if w.opts.Runtime {
+			for i := int64(0); i < 2*w.opts.EpochInterval-1; i++ {
+				if wv, ok := step(&alpha[0]); wv != "" || !ok {
+					return "", wv
+				}
+			}
 		}
 		// one empty block first so that evidence can refer to a block
 		for i, li := range append([]int{0}, h...) {
